@@ -8,6 +8,7 @@
 Run with /venv/bin/python and PYTHONPATH=/repo.
 """
 from __future__ import annotations
+import logging
 import base64, gc, hashlib, socket, struct, sys, zlib, os
 
 import lomond
@@ -589,6 +590,51 @@ def run_real(sc):
     return run_chain([sc])[0]
 
 
+class _FormattingHandler(logging.Handler):
+    """formats every record the way a real handler does (arguments are rendered with %r / %s) and throws the text away; a
+    record that cannot be formatted is what `logging` itself reports on stderr and carries on from"""
+
+    def emit(self, record):
+        try:
+            record.getMessage()
+        except Exception:  # noqa
+            pass
+
+
+def wants_debug(sc):
+    """the logging configuration is the application's business and nothing observable may depend on it: a third of all
+    scenarios (chosen by a checksum of the scenario, so that a replay makes the same choice) run with the 'lomond' logger at DEBUG
+    level and a handler that formats every record; the others with logging disabled."""
+    d = getattr(sc, 'debug', None)
+    if d is not None:
+        return bool(d)
+    key = repr((sc.env, sorted(sc.reactions.items()), sc.poll, sc.prate, sc.ptimeout, sc.compress, sc.url)).encode('utf-8', 'replace')
+    return zlib.crc32(key) % 3 == 0
+
+
+class debug_logging(object):
+    def __init__(self, on):
+        self.on = on
+
+    def __enter__(self):
+        if self.on:
+            lg = logging.getLogger('lomond')
+            self.saved = (lg.level, logging.root.manager.disable)
+            self.h = _FormattingHandler()
+            lg.addHandler(self.h)
+            lg.setLevel(logging.DEBUG)
+            logging.disable(logging.NOTSET)
+        return self
+
+    def __exit__(self, *exc):
+        if self.on:
+            lg = logging.getLogger('lomond')
+            lg.removeHandler(self.h)
+            lg.setLevel(self.saved[0])
+            logging.disable(self.saved[1])
+        return False
+
+
 def run_chain(scs, worlds=None):
     """Execute several scenarios one after the other on ONE WebSocket object (reconnects).
        Returns the list of canonical trace lines, one per connection.
@@ -626,7 +672,8 @@ def run_chain(scs, worlds=None):
             cur['sc'], cur['world'] = sc, world
             if worlds is not None:
                 worlds.append(world)
-            out.append(_run_one(ws, sc, world, held, chain_cls))
+            with debug_logging(wants_debug(sc)):
+                out.append(_run_one(ws, sc, world, held, chain_cls))
             t_next = world.clock.t + 3.0        # the next connection starts three seconds after the previous one ended
     finally:
         if held:
